@@ -17,7 +17,7 @@ var methods3 = []string{"GET", "POST", "PURGE"}
 func init() {
 	register(&Prop{
 		ID: "C02", Level: "exploration",
-		Rule: "one case = a generated history of Handle/HandleRoute/Update/UpdateRoute/Delete/Truncate (direct, in unmanaged and managed transactions ended by commit/abort/error/panic, ~12% invalid operations) over a pattern pool sharing prefixes, wildcards and hostnames across GET/POST/PURGE; every call's result and a full observation sweep (Len, Has, Route, Iter.All/Methods/Prefix/Routes) are compared with a sequential map after every step. Non-trivial: the history contains an effective delete or truncate and at least 3 effective inserts; distinct = hash of the operation sequence.",
+		Rule: "one case = a generated history of Handle/HandleRoute/Update/UpdateRoute/Delete/Truncate (direct, in unmanaged and managed transactions ended by commit/abort/error/panic, ~12% invalid operations) over a pattern pool sharing prefixes, wildcards and hostnames across GET/POST/PURGE; every call's result and a full observation sweep (Len, Has, Route, Iter.All/Methods/Prefix/Routes) are compared with a sequential map after every step; on three drawn requests Lookup and Reverse of the same reader (router, open transaction) must select the same route. Non-trivial: the history contains an effective delete or truncate and at least 3 effective inserts; distinct = hash of the operation sequence.",
 		Run:  runC02, Quick: 48000, Thorough: 9600000,
 		Real: commonReal, Stub: commonStub,
 		Domain: []string{"patterns: <= 6 segments over {a,b,ab,ba,c} with full/mid-segment params and catch-alls, hostnames of <= 3 labels", "methods GET, POST, PURGE (custom)"},
@@ -173,6 +173,7 @@ func runC02(src sim.Source, o Opts) *Result {
 		return res
 	}
 	prefixes := prefixesOf(src, pool)
+	probes := genProbes(src, pool, methods3, 3)
 	committed := model.NewSet()
 	nextTag := 0
 	nsteps := 4 + src.Intn("nsteps", 24)
@@ -204,6 +205,10 @@ func runC02(src sim.Source, o Opts) *Result {
 		want := world.ModelMapSweepOpt(set, methods3, pool, prefixes, withIter)
 		if d := world.DiffLines(got, want); d != "" {
 			res.fail("C02/sweep", "%s: observation differs from the sequential map: %s", where, d)
+			return false
+		}
+		if d := entryPointsAgree(rd, probes); d != "" {
+			res.fail("C02/entry-points-disagree", "%s: %s", where, d)
 			return false
 		}
 		return true
